@@ -40,6 +40,7 @@ type vdRes struct {
 	Err   string   `json:"err"`
 	Site  string   `json:"site"`
 	Cause string   `json:"cause"`
+	ASite string   `json:"asite"` // function that allocated the most, when the allocation bound is exceeded
 	Alloc int      `json:"alloc"` // KiB allocated during the call (TotalAlloc delta)
 	Got   []string `json:"got"`
 }
@@ -147,14 +148,14 @@ func vdGuard(fn func() ([]string, error)) (r vdRes, exit bool) {
 				break
 			}
 		}
-		return vdRes{Res: "hang", Site: site, Cause: "hang", Got: []string{}}, true
+		return vdRes{Res: "hang", Site: site, ASite: "-", Cause: "hang", Got: []string{}}, true
 	}
 	runtime.ReadMemStats(&m1)
 	alloc := (m1.TotalAlloc - m0.TotalAlloc + 1023) / 1024
 	if alloc > 1<<30 {
 		alloc = 1 << 30
 	}
-	r = vdRes{Alloc: int(alloc), Got: o.got, Site: "-", Cause: "-"}
+	r = vdRes{Alloc: int(alloc), Got: o.got, Site: "-", Cause: "-", ASite: "-"}
 	if r.Got == nil {
 		r.Got = []string{}
 	}
@@ -353,9 +354,8 @@ func TestVerifDecoderWorker(t *testing.T) {
 			}
 			put("B", vdBegin{Si: si, Ci: ci, InLen: len(fin), Case: c, Hex: hx})
 			r, exit := vdGuard(func() ([]string, error) { return run(fin) })
-			if !exit && r.Res != "panic" && r.Alloc > vdAllocBoundKiB(len(fin), s.comp) {
-				r.Site = vdAllocSite(func() ([]string, error) { return run(fin) })
-				r.Cause = "alloc"
+			if !exit && r.Alloc > vdAllocBoundKiB(len(fin), s.comp) {
+				r.ASite = vdAllocSite(func() ([]string, error) { return run(fin) })
 			}
 			put("R", r)
 			if exit {
@@ -499,7 +499,11 @@ func vdRunSubjects(dir string, w int, subj []int) (infos []vdSubjInfo, done []vd
 			if len(msg) > 160 {
 				msg = msg[:160]
 			}
-			done = append(done, vdDone{*open, vdRes{Res: res, Site: site, Cause: cause, Err: msg, Alloc: 1 << 30, Got: []string{}}})
+			asite := "-"
+			if res == "oom" {
+				asite = site
+			}
+			done = append(done, vdDone{*open, vdRes{Res: res, Site: site, ASite: asite, Cause: cause, Err: msg, Alloc: 1 << 30, Got: []string{}}})
 			pos, ci = posOf[open.Si], open.Ci+1
 			continue
 		}
@@ -622,7 +626,7 @@ func TestVerifDecoder(t *testing.T) {
 			dmg := in.HasRecs && in.HasCrc && !in.Wrapped && !c.Fix && c.Dmg
 			ev := kv{"type": in.Name, "ver": in.Ver, "ci": d.B.Ci, "kind": c.Kind, "trig": c.Trig, "prim": c.Prim, "caller": c.Caller,
 				"fix": c.Fix, "pos": c.Pos, "runver": c.RunVer, "inlen": d.B.InLen, "comp": in.Comp, "dmg": dmg,
-				"res": d.R.Res, "err": d.R.Err, "site": d.R.Site, "cause": d.R.Cause, "alloc": d.R.Alloc, "got": d.R.Got, "hex": d.B.Hex}
+				"res": d.R.Res, "err": d.R.Err, "site": d.R.Site, "asite": d.R.ASite, "cause": d.R.Cause, "alloc": d.R.Alloc, "got": d.R.Got, "hex": d.B.Hex}
 			rec.Ev("dec", kv{"inlen": d.B.InLen, "comp": in.Comp, "dmg": dmg, "res": d.R.Res, "alloc": d.R.Alloc, "got": d.R.Got})
 			det.Ev("dec", ev)
 			nDec++
@@ -865,10 +869,7 @@ func vdProgWorker(t *testing.T, path string, put func(string, interface{})) {
 			default:
 				sr.Res = r.Res
 			}
-			if r.Res != "panic" && r.Alloc > vdAllocBoundKiB(p.Len, false) {
-				sr.Site = "(*realDecoder)." + st.Op
-				sr.Cause = "alloc"
-			}
+
 			put("T", sr)
 			if exit {
 				os.Exit(3)
@@ -917,7 +918,7 @@ func vdRunPrograms(t *testing.T, dir string) *vdProgOut {
 		}
 		out.progs = append(out.progs, p)
 	}
-	nw := vEnvInt("VERIF_DEC_PWORKERS", 4)
+	nw := vEnvInt("VERIF_DEC_PWORKERS", 6)
 	var mu sync.Mutex
 	var wg sync.WaitGroup
 	var firstErr error
